@@ -414,6 +414,33 @@ func init() {
 						c15Check(px, "vers", argv, ok, exact, nil)
 					}
 				}
+				// long vers ranges and long probes (many intervals, long bounds, blank padding)
+				for _, k := range []int{4, 9, 17, 40, 130, 520} {
+					var ivs []string
+					for i := 0; i < k; i++ {
+						ivs = append(ivs, fmt.Sprintf(">=%d.0.0|<%d.5.0", i+1, i+1))
+					}
+					longRanges := []string{
+						"vers:npm/" + strings.Join(ivs, "|"),
+						"vers:npm/>=1.0.0-" + strings.Repeat("a", 8*k) + "|<2.0.0",
+						"vers:pypi/>=" + strings.Repeat("1.", 4*k) + "1",
+						"vers:npm/>=1.0.0" + strings.Repeat(" ", 8*k) + "|<2.0.0",
+						"vers:npm/" + strings.Repeat("!=3.0.0|", 0) + "!=" + strings.Repeat("0", 8*k) + "3.0.0",
+					}
+					probes := []string{"1.2.0", "1.7.0", fmt.Sprintf("%d.2.0", k), "1.0.0-" + strings.Repeat("a", 8*k+1), "1.2.0" + strings.Repeat(" ", 8*k), strings.Repeat("1.", 4*k) + "2"}
+					for _, lr := range longRanges {
+						for _, pb := range probes {
+							got, err := vers.Contains(lr, pb)
+							ok, exact := false, ""
+							if err == nil {
+								ok, exact = true, fmt.Sprintf("%t\n", got)
+							}
+							r.Add("states", 1)
+							r.Add("long_argument_vectors", 1)
+							c15Check(x, "vers", []string{"vers", "contains", lr, pb}, ok, exact, nil)
+						}
+					}
+				}
 				// a leading flag-like or empty argument in front of a valid invocation is not an ecosystem
 				for _, pre := range []string{"--", "-", "--version", "-version", "-version=false", "-h", "--help", "-v", "", " ", "--ecosystem=npm"} {
 					for _, tail := range [][]string{{"npm", "compare", "1.0.0", "2.0.0"}, {"vers", "contains", "vers:npm/*", "1.0.0"}, {"npm", "sort", "2.0.0", "1.0.0"}, {}} {
@@ -482,7 +509,7 @@ func init() {
 				"distinct_nontrivial":           r.Counters["nontrivial"],
 			}
 		},
-		Rule:        "for each of the 20 Name constants (read from the library packages, not from the CLI's table): commands compare/contains/sort x every argument vector of length 0..3 (sort: thorough 0..4, plus length 5 over 5 strings) over a 14-string pool (3 valid versions, a Compare-equal variant, 2 valid ranges, an invalid string, empty, blank, -1, --, a quoted version, a string with an inner space, one with a newline); 7 unknown command spellings; long arguments (six long spellings of a valid version and three of a range at lengths 31, 65, 129, 257, 1025, 4097, and sort with up to 1024 arguments; counter long_argument_vectors); 'vers contains' over all vectors of length 0..3 over a 16-string pool; 18 near-miss names. Every vector is run through the repository's run() (overlay-built in-process server) and a deterministic 1-in-k stride also as real processes of the unmodified binary. Expected stdout/exit code are computed by calling the library directly. distinct_nontrivial = vectors whose expectation is a success. Routing fingerprint: every ordered pair over 36 characteristic spellings drawn from all ecosystems through `compare` under every name; the library itself is used to confirm that every two ecosystems differ on at least one such pair (fingerprint_distinguished_pairs).",
+		Rule:        "for each of the 20 Name constants (read from the library packages, not from the CLI's table): commands compare/contains/sort x every argument vector of length 0..3 (sort: thorough 0..4, plus length 5 over 5 strings) over a 14-string pool (3 valid versions, a Compare-equal variant, 2 valid ranges, an invalid string, empty, blank, -1, --, a quoted version, a string with an inner space, one with a newline); 7 unknown command spellings; long arguments (six long spellings of a valid version and three of a range at lengths 31, 65, 129, 257, 1025, 4097, and sort with up to 1024 arguments; counter long_argument_vectors), and for `vers contains` five long range shapes (up to 520 intervals, long bounds, blank padding) x six probes at six sizes; 'vers contains' over all vectors of length 0..3 over a 16-string pool; 18 near-miss names. Every vector is run through the repository's run() (overlay-built in-process server) and a deterministic 1-in-k stride also as real processes of the unmodified binary. Expected stdout/exit code are computed by calling the library directly. distinct_nontrivial = vectors whose expectation is a success. Routing fingerprint: every ordered pair over 36 characteristic spellings drawn from all ecosystems through `compare` under every name; the library itself is used to confirm that every two ecosystems differ on at least one such pair (fingerprint_distinguished_pairs).",
 		Assumptions: []string{"sort output is checked as multiset + library order (the order among Compare-equal versions is not fixed by the property)"},
 	})
 }
